@@ -1,40 +1,61 @@
 /-
-  C17 — skeleton type definitions at token level: `pDef` on the tokens of one exported
-  definition, `pDefs` on a list of them (at the end of a document, or followed by more).
+  C17 — type definitions at token level: `pDef` on the tokens of one exported definition
+  (directive applications, specifiedBy URL and @oneOf included), `pDefs` on a list of them (at
+  the end of a document, or followed by more).
 -/
 import AGV.Lemmas.SdlSkeleton
 namespace AGV.Lemmas.SdlSkeleton
-open AGV.Core AGV.Core.PAst AGV.Core.Sdl AGV.Model.Sdl AGV.Spec.Literal AGV.Spec.Lex AGV.Spec.Parse AGV.Spec.SdlParse AGV.Lemmas.SdlLex
+open AGV.Core AGV.Core.PAst AGV.Core.Sdl AGV.Model.Sdl AGV.Spec.Literal AGV.Spec.Lex AGV.Spec.Parse AGV.Spec.SdlParse AGV.Lemmas.SdlLex AGV.Lemmas.SdlValue
 
 -- ------------------------------------------------------------------ type definitions
 
-/-- a skeleton type definition: names are Names; descriptions anywhere; no directive
-    applications, deprecations, default values, specifiedBy URL or @oneOf; the lists the grammar
-    requires to be non-empty are non-empty; no field is an introspection field -/
-def SkelType : TypeDef → Prop
-  | .scalar n a url => isName n = true ∧ PlainAttrs a ∧ url = none
-  | .object n a _ impls fs | .interface n a _ impls fs =>
-    isName n = true ∧ PlainAttrs a ∧ (∀ i ∈ impls, isName i = true) ∧ fs ≠ [] ∧
-      ∀ f ∈ fs, SkelField f ∧ startsWith2Underscores f.name = false
-  | .union n a ms => isName n = true ∧ PlainAttrs a ∧ ms ≠ [] ∧ ∀ m ∈ ms, isName m = true
-  | .enum n a vs => isName n = true ∧ PlainAttrs a ∧ vs ≠ [] ∧ ∀ v ∈ vs, SkelEnumVal v
-  | .input n a oneof fs => isName n = true ∧ PlainAttrs a ∧ oneof = false ∧ fs ≠ [] ∧ ∀ f ∈ fs, SkelIv f
+/-- the attributes of a type: no deprecation (the exporter never writes one for a type, `describe`
+    would require it), well-formed directive applications; any description -/
+structure TypeAttrs (a : Attrs) : Prop where
+  dep : a.dep = .no
+  dirs : ∀ d ∈ a.dirs, dirWf d = true
 
-/-- the definition after its description -/
-def defCore (o : Opts) : TypeDef → List Tok
-  | .scalar n _ _ => [.name (kw "scalar"), .name n]
-  | .object n _ _ impls fs =>
-    .name (kw "type") :: .name n :: implToks impls ++
-      .punct '{' :: fieldsToks o (sorted o.sortedFields (·.name) fs) ++ [.punct '}']
-  | .interface n _ _ impls fs =>
-    .name (kw "interface") :: .name n :: implToks impls ++
-      .punct '{' :: fieldsToks o (sorted o.sortedFields (·.name) fs) ++ [.punct '}']
-  | .union n _ ms => .name (kw "union") :: .name n :: .punct '=' :: sepToks '|' ms
-  | .enum n _ vs => .name (kw "enum") :: .name n :: .punct '{' :: enumToks (sorted o.sortedEnum (·.1) vs) ++ [.punct '}']
-  | .input n _ _ fs => .name (kw "input") :: .name n :: .punct '{' :: ivsToks (sorted o.sortedFields (·.name) fs) ++ [.punct '}']
+/-- a well-formed type definition: names are Names; descriptions, deprecations, directive
+    applications and default values anywhere (values printable: `svWf`); any specifiedBy URL,
+    @oneOf; the lists the grammar requires to be non-empty are non-empty; no field is an
+    introspection field -/
+def SkelType : TypeDef → Prop
+  | .scalar n a _ => isName n = true ∧ TypeAttrs a
+  | .object n a _ impls fs | .interface n a _ impls fs =>
+    isName n = true ∧ TypeAttrs a ∧ (∀ i ∈ impls, isName i = true) ∧ fs ≠ [] ∧
+      ∀ f ∈ fs, SkelField f ∧ startsWith2Underscores f.name = false
+  | .union n a ms => isName n = true ∧ TypeAttrs a ∧ ms ≠ [] ∧ ∀ m ∈ ms, isName m = true
+  | .enum n a vs => isName n = true ∧ TypeAttrs a ∧ vs ≠ [] ∧ ∀ v ∈ vs, SkelEnumVal v
+  | .input n a _ fs => isName n = true ∧ TypeAttrs a ∧ fs ≠ [] ∧ ∀ f ∈ fs, SkelIv f
 
 def tdAttrs : TypeDef → Attrs
   | .scalar _ a _ | .object _ a .. | .interface _ a .. | .union _ a _ | .enum _ a _ | .input _ a .. => a
+
+/-- `@specifiedBy(url: "…")` -/
+def specApps (o : Opts) (url : Option Text) : List DirApp :=
+  if o.specifiedBy then (match url with | some u => [⟨kwT "specifiedBy", [(kwT "url", .str u)]⟩] | none => []) else []
+
+/-- the directive applications of a type definition of a plain export, in the order written -/
+def typeApps (o : Opts) : TypeDef → List DirApp
+  | .scalar _ a url => specApps o url ++ a.dirs
+  | .input _ a oneof _ => (if oneof then [⟨kwT "oneOf", []⟩] else []) ++ a.dirs
+  | t => (tdAttrs t).dirs
+
+/-- the definition after its description -/
+def defCore (o : Opts) (t : TypeDef) : List Tok :=
+  match t with
+  | .scalar n _ _ => .name (kw "scalar") :: .name n :: dirsToks (typeApps o t)
+  | .object n _ _ impls fs =>
+    .name (kw "type") :: .name n :: implToks impls ++ dirsToks (typeApps o t) ++
+      .punct '{' :: fieldsToks o (sorted o.sortedFields (·.name) fs) ++ [.punct '}']
+  | .interface n _ _ impls fs =>
+    .name (kw "interface") :: .name n :: implToks impls ++ dirsToks (typeApps o t) ++
+      .punct '{' :: fieldsToks o (sorted o.sortedFields (·.name) fs) ++ [.punct '}']
+  | .union n _ ms => .name (kw "union") :: .name n :: dirsToks (typeApps o t) ++ .punct '=' :: sepToks '|' ms
+  | .enum n _ vs =>
+    .name (kw "enum") :: .name n :: dirsToks (typeApps o t) ++ .punct '{' :: enumToks (sorted o.sortedEnum (·.1) vs) ++ [.punct '}']
+  | .input n _ _ fs =>
+    .name (kw "input") :: .name n :: dirsToks (typeApps o t) ++ .punct '{' :: ivsToks (sorted o.sortedFields (·.name) fs) ++ [.punct '}']
 
 def isSystemScalar : TypeDef → Bool
   | .scalar n _ _ => systemScalars.contains n
@@ -71,22 +92,42 @@ theorem kw_facts :
     kw "input" ≠ kw "union" ∧ kw "input" ≠ kw "enum" := by decide
 
 
-theorem pDef_scalar (dsc : Option Text) (n : Text) (rest : List Tok) (hr : DefEnd rest) :
-    pDef (descToks dsc ++ (.name (kw "scalar") :: .name n :: rest)) = some (.type false n dsc [] .scalar, rest) := by
-  have hd := constDirs_noAt rest hr.tokEnd.noAt
+theorem DefEnd.dirEnd {ts} (h : DefEnd ts) : DirEnd ts := h.tokEnd.dirEnd
+
+theorem dirEnd_punct (c : Char) (r : List Tok) (h1 : c ≠ '@') (h2 : c ≠ '(') : DirEnd (.punct c :: r) := by
+  intro r'; constructor <;> (intro e; cases e <;> contradiction)
+
+theorem dirsToks_punct_noName (ds : List DirApp) (c : Char) (r : List Tok) : ∀ n r', dirsToks ds ++ .punct c :: r ≠ .name n :: r' := by
+  cases ds with
+  | nil => intro n r' e; cases e
+  | cons d ds => intro n r' e; simp [dirsToks, dirToks] at e
+
+theorem dirsToks_punct_noAmp (ds : List DirApp) (c : Char) (hc : c ≠ '&') (r : List Tok) :
+    ∀ r', dirsToks ds ++ .punct c :: r ≠ .punct '&' :: r' := by
+  cases ds with
+  | nil => intro r' e; cases e; exact hc rfl
+  | cons d ds => intro r' e; simp [dirsToks, dirToks] at e
+
+theorem pDef_scalar (dsc : Option Text) (n : Text) (ds : List DirApp) (hds : ∀ d ∈ ds, dirWf d = true) (rest : List Tok)
+    (hr : DefEnd rest) :
+    pDef (descToks dsc ++ (.name (kw "scalar") :: .name n :: (dirsToks ds ++ rest))) =
+      some (.type false n dsc (ds.map dDir) .scalar, rest) := by
+  have hd := constDirs_toks ds hds rest hr.dirEnd
   have e1 : kw "scalar" ≠ kw "extend" := by decide
   have e2 : kw "scalar" ≠ kw "schema" := by decide
   have e3 : kw "scalar" ≠ kw "directive" := by decide
   simp only [pDef, pDesc_descToks, e1, e2, e3, if_false, pTypeDef, if_true, hd, Option.map_some]
 
 theorem pDef_object (o : Opts) (ho : o.federation = false) (dsc : Option Text) (isObj : Bool) (n : Text) (impls : List Text)
+    (ds : List DirApp) (hds : ∀ d ∈ ds, dirWf d = true)
     (fs : List FieldDef) (hfs : fs ≠ []) (hsk : ∀ f ∈ fs, SkelField f) (rest : List Tok) :
-    pDef (descToks dsc ++ (.name (kw (if isObj then "type" else "interface")) :: .name n :: implToks impls ++
+    pDef (descToks dsc ++ (.name (kw (if isObj then "type" else "interface")) :: .name n :: implToks impls ++ dirsToks ds ++
         .punct '{' :: fieldsToks o (sorted o.sortedFields (·.name) fs) ++ [.punct '}'] ++ rest)) =
-      some (.type false n dsc [] (if isObj then .object impls (dFields o fs) else .interface impls (dFields o fs)), rest) := by
-  have himpl := pImplements_toks impls (fieldsToks o (sorted o.sortedFields (·.name) fs) ++ .punct '}' :: rest)
-  have hd := constDirs_noAt (.punct '{' :: (fieldsToks o (sorted o.sortedFields (·.name) fs) ++ .punct '}' :: rest))
-    (by intro r e; cases e)
+      some (.type false n dsc (ds.map dDir) (if isObj then .object impls (dFields o fs) else .interface impls (dFields o fs)), rest) := by
+  have himpl := pImplements_toks impls (dirsToks ds ++ .punct '{' :: (fieldsToks o (sorted o.sortedFields (·.name) fs) ++ .punct '}' :: rest))
+    (dirsToks_punct_noName _ _ _) (dirsToks_punct_noAmp _ _ (by decide) _)
+  have hd := constDirs_toks ds hds (.punct '{' :: (fieldsToks o (sorted o.sortedFields (·.name) fs) ++ .punct '}' :: rest))
+    (dirEnd_punct _ _ (by decide) (by decide))
   have hfl := pFields_toks o ho (sorted o.sortedFields (·.name) fs) (sorted_ne_nil _ _ _ hfs)
     (fun f hf => hsk f ((sorted_mem _ _ _ _).mp hf)) rest
     ((fieldsToks o (sorted o.sortedFields (·.name) fs) ++ .punct '}' :: rest).length + 1) (by
@@ -103,22 +144,24 @@ theorem pDef_object (o : Opts) (ho : o.federation = false) (dsc : Option Text) (
       pFieldsDef, hfl, Option.map_some, dFields]
     simp
 
-theorem pDef_union (dsc : Option Text) (n : Text) (ms : List Text) (hne : ms ≠ []) (rest : List Tok) (hr : DefEnd rest) :
-    pDef (descToks dsc ++ (.name (kw "union") :: .name n :: .punct '=' :: sepToks '|' ms ++ rest)) =
-      some (.type false n dsc [] (.union ms), rest) := by
-  have hd := constDirs_noAt (.punct '=' :: (sepToks '|' ms ++ rest)) (by intro r e; cases e)
+theorem pDef_union (dsc : Option Text) (n : Text) (ds : List DirApp) (hds : ∀ d ∈ ds, dirWf d = true)
+    (ms : List Text) (hne : ms ≠ []) (rest : List Tok) (hr : DefEnd rest) :
+    pDef (descToks dsc ++ (.name (kw "union") :: .name n :: dirsToks ds ++ .punct '=' :: sepToks '|' ms ++ rest)) =
+      some (.type false n dsc (ds.map dDir) (.union ms), rest) := by
+  have hd := constDirs_toks ds hds (.punct '=' :: (sepToks '|' ms ++ rest)) (dirEnd_punct _ _ (by decide) (by decide))
   have hn := pNamesAfter_toks '|' ms hne rest (by intro r e; cases hr <;> cases e)
   obtain ⟨_, _, _, _, _, _, _, _, _, e1, e2, e3, e4, e5, e6, _⟩ := kw_facts
-  simp only [List.cons_append, pDef, pDesc_descToks, e1, e2, e3, e4, e5, e6, pTypeDef, if_false, if_true, hd, hn,
+  simp only [List.cons_append, List.append_assoc, pDef, pDesc_descToks, e1, e2, e3, e4, e5, e6, pTypeDef, if_false, if_true, hd, hn,
     Option.map_some, Bool.or_self, Bool.false_eq_true, decide_false]
 
-theorem pDef_enum (o : Opts) (ho : o.federation = false) (dsc : Option Text) (n : Text) (vs : List (Text × Attrs)) (hne : vs ≠ [])
+theorem pDef_enum (o : Opts) (ho : o.federation = false) (dsc : Option Text) (n : Text) (ds : List DirApp) (hds : ∀ d ∈ ds, dirWf d = true)
+    (vs : List (Text × Attrs)) (hne : vs ≠ [])
     (hvs : ∀ v ∈ vs, SkelEnumVal v) (rest : List Tok) :
-    pDef (descToks dsc ++ (.name (kw "enum") :: .name n :: .punct '{' :: enumToks (sorted o.sortedEnum (·.1) vs) ++ [.punct '}'] ++ rest)) =
-      some (.type false n dsc []
+    pDef (descToks dsc ++ (.name (kw "enum") :: .name n :: dirsToks ds ++ .punct '{' :: enumToks (sorted o.sortedEnum (·.1) vs) ++ [.punct '}'] ++ rest)) =
+      some (.type false n dsc (ds.map dDir)
         (.enum ((sorted o.sortedEnum (·.1) vs).map (fun v => ⟨v.1, v.2.desc, dDirs o v.2⟩))), rest) := by
-  have hd := constDirs_noAt (.punct '{' :: (enumToks (sorted o.sortedEnum (·.1) vs) ++ .punct '}' :: rest))
-    (by intro r e; cases e)
+  have hd := constDirs_toks ds hds (.punct '{' :: (enumToks (sorted o.sortedEnum (·.1) vs) ++ .punct '}' :: rest))
+    (dirEnd_punct _ _ (by decide) (by decide))
   have hv := pEnumValues_toks o ho (sorted o.sortedEnum (·.1) vs) (sorted_ne_nil _ _ _ hne)
     (fun v hv => hvs v ((sorted_mem _ _ _ _).mp hv)) rest
     ((enumToks (sorted o.sortedEnum (·.1) vs) ++ .punct '}' :: rest).length + 1)
@@ -127,12 +170,13 @@ theorem pDef_enum (o : Opts) (ho : o.federation = false) (dsc : Option Text) (n 
   simp only [List.cons_append, List.append_assoc, List.nil_append, pDef, pDesc_descToks, e1, e2, e3, e4, e5, e6, e7, pTypeDef,
     if_false, if_true, hd, hv, Option.map_some, Bool.or_self, Bool.false_eq_true, decide_false]
 
-theorem pDef_input (o : Opts) (ho : o.federation = false) (dsc : Option Text) (n : Text) (fs : List InputVal) (hne : fs ≠ [])
+theorem pDef_input (o : Opts) (ho : o.federation = false) (dsc : Option Text) (n : Text) (ds : List DirApp) (hds : ∀ d ∈ ds, dirWf d = true)
+    (fs : List InputVal) (hne : fs ≠ [])
     (hfs : ∀ f ∈ fs, SkelIv f) (rest : List Tok) :
-    pDef (descToks dsc ++ (.name (kw "input") :: .name n :: .punct '{' :: ivsToks (sorted o.sortedFields (·.name) fs) ++ [.punct '}'] ++ rest)) =
-      some (.type false n dsc [] (.input ((sorted o.sortedFields (·.name) fs).map (dIv o))), rest) := by
-  have hd := constDirs_noAt (.punct '{' :: (ivsToks (sorted o.sortedFields (·.name) fs) ++ .punct '}' :: rest))
-    (by intro r e; cases e)
+    pDef (descToks dsc ++ (.name (kw "input") :: .name n :: dirsToks ds ++ .punct '{' :: ivsToks (sorted o.sortedFields (·.name) fs) ++ [.punct '}'] ++ rest)) =
+      some (.type false n dsc (ds.map dDir) (.input ((sorted o.sortedFields (·.name) fs).map (dIv o))), rest) := by
+  have hd := constDirs_toks ds hds (.punct '{' :: (ivsToks (sorted o.sortedFields (·.name) fs) ++ .punct '}' :: rest))
+    (dirEnd_punct _ _ (by decide) (by decide))
   have hv := pInputValues_toks o ho '}' (Or.inr rfl) (sorted o.sortedFields (·.name) fs) (sorted_ne_nil _ _ _ hne)
     (fun v hv => hfs v ((sorted_mem _ _ _ _).mp hv)) rest
     ((ivsToks (sorted o.sortedFields (·.name) fs) ++ .punct '}' :: rest).length + 1)
@@ -140,6 +184,40 @@ theorem pDef_input (o : Opts) (ho : o.federation = false) (dsc : Option Text) (n
   obtain ⟨_, _, _, _, _, _, _, _, _, _, _, _, _, _, _, _, _, _, _, _, _, _, e1, e2, e3, e4, e5, e6, e7, e8⟩ := kw_facts
   simp only [List.cons_append, List.append_assoc, List.nil_append, pDef, pDesc_descToks, e1, e2, e3, e4, e5, e6, e7, e8, pTypeDef,
     if_false, if_true, hd, hv, Option.map_some, Bool.or_self, Bool.false_eq_true, decide_false]
+
+/-- the directive applications `describe` lists for a type are those written -/
+theorem typeApps_wf (o : Opts) (t : TypeDef) (ha : TypeAttrs (tdAttrs t)) : ∀ d ∈ typeApps o t, dirWf d = true := by
+  have hspec : ∀ url, ∀ d ∈ specApps o url, dirWf d = true := by
+    intro url d hd
+    unfold specApps at hd
+    split at hd
+    · cases url with
+      | none => cases hd
+      | some u =>
+        simp only [List.mem_singleton] at hd
+        subst hd
+        simp only [dirWf, sfWf, svWf, Bool.and_true]; decide
+    · cases hd
+  cases t with
+  | scalar n a url =>
+    intro d hd
+    rcases List.mem_append.mp hd with hd | hd
+    · exact hspec url d hd
+    · exact ha.dirs d hd
+  | input n a oneof fs =>
+    intro d hd
+    rcases List.mem_append.mp hd with hd | hd
+    · cases oneof
+      · cases hd
+      · simp only [if_true, List.mem_singleton] at hd; subst hd; decide
+    · exact ha.dirs d hd
+  | object n a e i f => exact ha.dirs
+  | interface n a e i f => exact ha.dirs
+  | union n a m => exact ha.dirs
+  | «enum» n a v => exact ha.dirs
+
+theorem dDirs_type (o : Opts) (ho : o.federation = false) (a : Attrs) (ha : TypeAttrs a) : dDirs o a = a.dirs.map dDir := by
+  simp [dDirs, dFed, ho, ha.dep, dDeprecated]
 
 theorem defToks_end (o : Opts) (t : TypeDef) (r : List Tok) (hr : DefEnd r) : DefEnd (defToks o t ++ r) := by
   unfold defToks
@@ -154,7 +232,7 @@ theorem defsToks_end (o : Opts) (L : List TypeDef) (r : List Tok) (hr : DefEnd r
   | nil => simpa using hr
   | cons t L ih => simp only [List.flatMap_cons, List.append_assoc]; exact defToks_end o t _ ih
 
-/-- one skeleton type definition, at token level -/
+/-- one type definition, at token level -/
 theorem pDef_toks (o : Opts) (ho : o.federation = false) (t : TypeDef) (hs : SkelType t) (rest : List Tok)
     (hr : DefEnd rest) :
     (dType o t = none ∧ defToks o t = []) ∨
@@ -168,53 +246,56 @@ theorem pDef_toks (o : Opts) (ho : o.federation = false) (t : TypeDef) (hs : Ske
     · right
       have hn' : systemScalars.contains n = false := by simpa using hn
       have hb : builtinScalars.contains n = false := by rw [← systemScalars_builtin]; exact hn'
-      obtain ⟨_, ha, hu⟩ := hs
-      have hd : dType o (.scalar n a url) = some (.type false n a.desc [] .scalar) := by
-        simp only [dType, hb, Bool.false_eq_true, if_false, hu, dDirs_plain o ho a ha]
-        cases o.specifiedBy <;> rfl
+      obtain ⟨_, ha⟩ := hs
+      have hd : dType o (.scalar n a url) = some (.type false n a.desc ((typeApps o (.scalar n a url)).map dDir) .scalar) := by
+        simp only [dType, hb, Bool.false_eq_true, if_false, dDirs_type o ho a ha, typeApps, specApps, List.map_append]
+        cases o.specifiedBy <;> cases url <;> simp [dDir, SValue.toP]
       refine ⟨_, hd, ?_⟩
       simp only [defToks, isSystemScalar, hn', Bool.false_eq_true, if_false, tdAttrs, defCore, List.append_assoc,
         List.cons_append, List.nil_append]
-      exact pDef_scalar a.desc n rest hr
+      exact pDef_scalar a.desc n _ (typeApps_wf o (.scalar n a url) ha) rest hr
   | object n a ext impls fs =>
     right
     obtain ⟨_, ha, _, hne, hfs⟩ := hs
     refine ⟨_, rfl, ?_⟩
-    have := pDef_object o ho a.desc true n impls fs hne (fun f hf => (hfs f hf).1) rest
+    have := pDef_object o ho a.desc true n impls a.dirs ha.dirs fs hne (fun f hf => (hfs f hf).1) rest
     simp only [if_true] at this
-    simp only [defToks, isSystemScalar, Bool.false_eq_true, if_false, tdAttrs, defCore, ho, Bool.false_and,
-      dDirs_plain o ho a ha, List.append_assoc]
+    simp only [defToks, isSystemScalar, Bool.false_eq_true, if_false, tdAttrs, defCore, typeApps, ho, Bool.false_and,
+      dDirs_type o ho a ha, List.append_assoc]
     simpa [List.append_assoc] using this
   | interface n a ext impls fs =>
     right
     obtain ⟨_, ha, _, hne, hfs⟩ := hs
     refine ⟨_, rfl, ?_⟩
-    have := pDef_object o ho a.desc false n impls fs hne (fun f hf => (hfs f hf).1) rest
+    have := pDef_object o ho a.desc false n impls a.dirs ha.dirs fs hne (fun f hf => (hfs f hf).1) rest
     simp only [Bool.false_eq_true, if_false] at this
-    simp only [defToks, isSystemScalar, Bool.false_eq_true, if_false, tdAttrs, defCore, ho, Bool.false_and,
-      dDirs_plain o ho a ha, List.append_assoc]
+    simp only [defToks, isSystemScalar, Bool.false_eq_true, if_false, tdAttrs, defCore, typeApps, ho, Bool.false_and,
+      dDirs_type o ho a ha, List.append_assoc]
     simpa [List.append_assoc] using this
   | union n a ms =>
     right
     obtain ⟨_, ha, hne, _⟩ := hs
     refine ⟨_, rfl, ?_⟩
-    simp only [defToks, isSystemScalar, Bool.false_eq_true, if_false, tdAttrs, defCore, dDirs_plain o ho a ha,
+    simp only [defToks, isSystemScalar, Bool.false_eq_true, if_false, tdAttrs, defCore, typeApps, dDirs_type o ho a ha,
       List.append_assoc]
-    exact pDef_union a.desc n ms hne rest hr
+    simpa [List.append_assoc] using pDef_union a.desc n a.dirs ha.dirs ms hne rest hr
   | «enum» n a vs =>
     right
     obtain ⟨_, ha, hne, hvs⟩ := hs
     refine ⟨_, rfl, ?_⟩
-    simp only [defToks, isSystemScalar, Bool.false_eq_true, if_false, tdAttrs, defCore, dDirs_plain o ho a ha,
+    simp only [defToks, isSystemScalar, Bool.false_eq_true, if_false, tdAttrs, defCore, typeApps, dDirs_type o ho a ha,
       List.append_assoc]
-    simpa [List.append_assoc] using pDef_enum o ho a.desc n vs hne hvs rest
+    simpa [List.append_assoc] using pDef_enum o ho a.desc n a.dirs ha.dirs vs hne hvs rest
   | input n a oneof fs =>
     right
-    obtain ⟨_, ha, hone, hne, hfs⟩ := hs
-    refine ⟨_, rfl, ?_⟩
-    simp only [defToks, isSystemScalar, Bool.false_eq_true, if_false, tdAttrs, defCore, dDirs_plain o ho a ha, hone,
-      List.nil_append, List.append_assoc]
-    simpa [List.append_assoc] using pDef_input o ho a.desc n fs hne hfs rest
+    obtain ⟨_, ha, hne, hfs⟩ := hs
+    have hd : dType o (.input n a oneof fs) = some (.type false n a.desc ((typeApps o (.input n a oneof fs)).map dDir)
+        (.input ((sorted o.sortedFields (·.name) fs).map (dIv o)))) := by
+      simp only [dType, dDirs_type o ho a ha, typeApps, List.map_append]
+      cases oneof <;> simp [dDir]
+    refine ⟨_, hd, ?_⟩
+    simp only [defToks, isSystemScalar, Bool.false_eq_true, if_false, tdAttrs, defCore, List.append_assoc]
+    simpa [List.append_assoc] using pDef_input o ho a.desc n _ (typeApps_wf o (.input n a oneof fs) ha) fs hne hfs rest
 
 theorem pDefs_nil (g : Nat) : pDefs g [] = none := by
   cases g with
